@@ -529,6 +529,11 @@ def rule_tokens(ctx, rep):
         except PyRaise as e:
             got = f"rejected ({e.exc})"
         rep.check(got.startswith("rejected") or "Unsupported" in got, rule, f"malformed {line!r} rejected", where, got, "rejected")
+    # blank lines at the very top of the file count as well (through the whole parser, not only its first pass)
+    teal0 = w.call(w.func("tealer.teal.parse_teal", "parse_teal"), "\n  \n#pragma version 6\n\nint 1\nreturn\n", "c")
+    got0 = [(w.getattr(i, "line"), " ".join(Interp(i.cls.mod).to_str(i).split())) for i in w.getattr(teal0, "instructions")]
+    rep.check(got0 == [(3, "#pragma version 6"), (5, "int 1"), (6, "return")], rule, "line numbers of a file that starts with blank lines", ctx.path("tealer.teal.parse_teal"),
+              got0, [(3, "#pragma version 6"), (5, "int 1"), (6, "return")], why="recorded line numbers are not the 1-based source lines")
     # line numbers are the 1-based source lines, comment-only and blank lines count
     fp = w.func("tealer.teal.parse_teal", "first_pass")
     import collections
@@ -542,3 +547,47 @@ def rule_tokens(ctx, rep):
     rep.check(src_kept == ["#pragma version 6", "  int 1 // x", "l:", "return"], rule, "source text kept per instruction", where, src_kept, "verbatim lines")
     cm = [w.getattr(i, "comments_before_ins") for i in instrs]
     rep.check(cm == [[], ["// c"], [], ["// c2"]], rule, "comment lines attached to the next instruction", where, cm, [[], ["// c"], [], ["// c2"]])
+
+
+
+def rule_int_push_table(ctx, rep):
+    rule = "T-INTPUSH"
+    rep.rule(rule, "is_int_push_ins over every opcode spelling: 'pushes an integer constant' is answered yes exactly for int / pushint / intc / "
+                   "intc_k - instructions that push exactly one value, the constant - and the reported value is that constant (unknown for an "
+                   "unresolved intc); never for an instruction that pushes several values or a computed one")
+    w = ctx.world
+    f = w.func("tealer.utils.analyses", "is_int_push_ins")
+    where = f"{ctx.path('tealer.utils.analyses')}:{f.node.lineno}"
+    n = 0
+    seen = set()
+    for r in parsed_rows(ctx):
+        if "obj" not in r:
+            continue
+        mn = r["op"]["mnemonic"]
+        key = (mn, r["line"])
+        if key in seen:
+            continue
+        seen.add(key)
+        o = r["obj"]
+        toks = r["line"].split()
+        try:
+            got = w.call(f, o)
+        except PyRaise as e:
+            got = ("RAISES", e.exc)
+        if mn in ("int", "pushint"):
+            imm = toks[1]
+            want_yes = True
+            ok = isinstance(got, tuple) and got[0] is True and (got[1] == (int(imm, 0) if imm[0].isdigit() else got[1]))
+        elif mn in ("intc", "intc_0", "intc_1", "intc_2", "intc_3"):
+            # no block / contract attached to a freshly parsed instruction: the tool may refuse (its own error) or answer 'constant, value unknown'
+            ok = (isinstance(got, tuple) and (got[0] == "RAISES" or (got[0] is True and got[1] is None)))
+            want_yes = True
+        else:
+            want_yes = False
+            ok = isinstance(got, tuple) and got[0] is False
+        n += 1
+        rep.check(ok, rule, f"{r['line']}", where, list(got) if isinstance(got, tuple) else got, "(True, the constant)" if want_yes else "(False, -)",
+                  why="an instruction is taken for an integer constant it does not push (or the reverse): comparisons would be read against the wrong value",
+                  sample={"line": r["line"], "constant": want_yes} if mn in ("int", "pushints", "intc_0", "txn") else None)
+    rep.count("instructions asked", n)
+    rep.require(n >= 400, f"only {n} instructions")
